@@ -30,9 +30,23 @@ class C06(object):
             "(float64, float32, int64, int32), zero weights included - value vs the definition with the normalised "
             "weights, 0 <= JSD <= H(w), reordering, invariance under rescaling / re-typing the weights, and agreement with "
             "the Distribution form; TV, BC, Hellinger, cross / relative entropy, Chernoff, categorical EMD and the "
-            "two-argument JSD on the first two vectors")
+            "two-argument JSD on the first two vectors. Every pair / restricted case also runs f_divergence for f in "
+            "{t log t, -log t, |t-1|/2, (t-1)^2, (sqrt t - 1)^2, 4/(1-a^2)(1 - t^((1+a)/2))} (also with rvs) against "
+            "sum_x q f(p/q) over the labels, >= 0 and 0 on (p,p); not judged where f_divergence is known to drop terms: "
+            "outcomes of the second support outside the first when f(0) != 0, and of the first outside the second when "
+            "lim f(t)/t != 0. Every emd case also hands over explicit cost matrices between the stored outcomes "
+            "(3[i != j], |x-y|, (x-y)^2 for labels placed on a line): optimum = 3 TV resp. the monotone coupling, exact. "
+            "Kind `condmaxcorr`: maximum_correlation with crvs on exact tables P[x][y][z] (1..3 symbols each; random, "
+            "sparse, conditionally independent, Z independent of (X,Y), X = Y in one slice, constant Z, a z of probability "
+            "zero in the sample space; coordinates in any order, X or Z spread over two coordinates): value = max over z "
+            "with p(z) > 0 of the second singular value of p(x,y|z)/sqrt(p(x|z)p(y|z)), in [0,1], 0 iff X and Y are "
+            "independent given Z, symmetric in the groups, = the unconditional value when Z is independent of (X,Y), "
+            "the pmf-level entry point on the 3-d array, and rho^2 a largest root of the model's exact per-slice "
+            "characteristic polynomials")
     tolerances = {'closed forms': 'atol 1e-9', 'chernoff (scipy bounded scalar minimiser, xatol 1e-5)': '1e-4 relative', 'emd (LP)': '1e-7',
-                  'maximum correlation': '|sigma2^2 is a root of the exact characteristic polynomial| <= 1e-8'}
+                  'maximum correlation': '|sigma2^2 is a root of the exact characteristic polynomial| <= 1e-8',
+                  'f-divergences': 'atol 1e-9 (relative above 1)', 'emd with explicit costs (LP)': '1e-7 relative',
+                  'conditional maximum correlation': '1e-7 vs the definition; rho^2 root of a slice polynomial to 1e-7 of its coefficient mass'}
     exhaustive = {}
 
     def gen(self, rng, tier):
@@ -90,6 +104,9 @@ class C06(object):
         # pmf-level entry points (appended after the main stream so that the cases above do not depend on them)
         for _ in range(70 if tier == 'quick' else 6000):
             yield self.gen_pmfform(rng)
+        # conditional maximum correlation (crvs given); appended last for the same reason
+        for _ in range(70 if tier == 'quick' else 5000):
+            yield self.gen_condmaxcorr(rng)
 
     def full_space(self, a, b):
         alph = [sorted(set(x) | set(y)) for x, y in zip(a['alphabets'], b['alphabets'])]
@@ -186,6 +203,58 @@ class C06(object):
         return {'kind': 'maxcorr', 'klass': klass, 'P': [[str(v) for v in row] for row in P], 'style': style,
                 'explicit': rng.random() < 0.3, 'dense': rng.random() < 0.5}
 
+    CSTYLES = ['random', 'random', 'sparse', 'cond-independent', 'z-independent', 'slice-deterministic', 'const-z', 'empty-slice']
+
+    def gen_condmaxcorr(self, rng):
+        """A joint of X, Y, Z as an exact table P[x][y][z]; the outcome's coordinates hold the roles in any order, X or Z
+        possibly spread over two coordinates."""
+        style = rng.choice(self.CSTYLES)
+        nx, ny, nz = rng.randint(1, 3), rng.randint(1, 3), rng.randint(1, 3)
+        if style == 'const-z':
+            nz = 1
+        if style == 'slice-deterministic':
+            nx = ny = rng.randint(2, 3)
+        if style == 'empty-slice':
+            nz = rng.randint(2, 3)
+        pv = lambda k, st: gen.rand_prob_vector(rng, k, st)[0]
+        positive = lambda k: pv(k, 'uneven')
+        P = [[[Fraction(0)] * nz for _ in range(ny)] for _ in range(nx)]
+        cells = [(x, y, z) for x in range(nx) for y in range(ny) for z in range(nz)]
+        if style == 'random':
+            v = pv(len(cells), rng.choice(['small', 'dyadic', 'uneven']))
+            for (x, y, z), p in zip(cells, v):
+                P[x][y][z] = p
+        elif style == 'sparse':
+            sup = rng.sample(cells, rng.randint(1, len(cells)))
+            for (x, y, z), p in zip(sup, positive(len(sup))):
+                P[x][y][z] = p
+        elif style == 'z-independent':
+            pxy, pz = pv(nx * ny, rng.choice(['small', 'dyadic', 'uneven'])), positive(nz)
+            for x, y, z in cells:
+                P[x][y][z] = pxy[x * ny + y] * pz[z]
+        elif style == 'empty-slice':
+            z0 = rng.randrange(nz)
+            live = [c for c in cells if c[2] != z0]
+            for (x, y, z), p in zip(live, pv(len(live), rng.choice(['small', 'uneven']))):
+                P[x][y][z] = p
+        else:
+            # every slice a product p(x|z) p(y|z); 'slice-deterministic' replaces one slice by X = Y
+            pz = pv(nz, 'small') if style == 'cond-independent' else positive(nz)
+            zdet = rng.randrange(nz) if style == 'slice-deterministic' else None
+            for z in range(nz):
+                px, py = pv(nx, 'small'), pv(ny, 'small')
+                pd = positive(nx)
+                for x in range(nx):
+                    for y in range(ny):
+                        P[x][y][z] = pz[z] * ((pd[x] if x == y else 0) if z == zdet else px[x] * py[y])
+        split = rng.choice(['none', 'none', 'z2', 'x2'])
+        roles = ['x', 'y', 'z'] + {'none': [], 'z2': ['z2'], 'x2': ['x2']}[split]
+        rng.shuffle(roles)
+        dense = rng.random() < 0.5
+        return {'kind': 'condmaxcorr', 'klass': rng.choice(['str', 'tuple', 'mixed']), 'style': style,
+                'P': [[[str(v) for v in row] for row in plane] for plane in P], 'roles': roles,
+                'dense': dense or style == 'empty-slice', 'explicit': rng.random() < 0.3, 'reverse_groups': rng.random() < 0.5}
+
     def shrink(self, case):
         return []
 
@@ -229,6 +298,82 @@ class C06(object):
         if math.isnan(x) or math.isnan(y):
             return False
         return abs(x - y) <= tol * max(1.0, abs(y))
+
+    # ------------------------------------------------------------------ Csiszar f-divergences
+    # D_f(P||Q) = sum_x q(x) f(p(x)/q(x)) with the conventions 0 f(0/0) = 0, q f(0/q) = q f(0) and
+    # 0 f(p/0) = p lim_{t->inf} f(t)/t (Csiszar; Liese & Vajda, cited in generalized_divergences.py).
+    # Every entry: (name, f as handed to dit, f(0), lim f(t)/t).  All f are convex with f(1) = 0.
+    @staticmethod
+    def fdiv_menu(alpha):
+        a = alpha if abs(alpha) < 1 else 0.5
+        c = 4.0 / (1.0 - a * a)
+        e = (1.0 + a) / 2.0
+        return [
+            ('kl', lambda t: t * np.log2(t), 0.0, math.inf),                # Kullback-Leibler D(p||q)
+            ('rkl', lambda t: -np.log2(t), math.inf, 0.0),                  # reverse: D(q||p)
+            ('tv', lambda t: abs(t - 1) / 2, 0.5, 0.5),                     # total variation
+            ('chi2', lambda t: (t - 1) ** 2, 1.0, math.inf),                # Pearson chi-square
+            ('hel', lambda t: (np.sqrt(t) - 1) ** 2, 1.0, 1.0),             # 2 (1 - BC)
+            ('alpha', lambda t: c * (1.0 - np.power(t, e)), c, 0.0),        # 4/(1-a^2) (1 - t^((1+a)/2)), a = alpha if |alpha| < 1 else 1/2
+        ]
+
+    def fdiv_judge(self, D, da, db, ta, tb, alpha, r, drv=None, rvs=None):
+        """f_divergence(da, db, f[, rvs]) against the definition evaluated on the exact tables ta, tb (those of the
+        marginals when rvs is given).  Returns False when an oracle failure was recorded."""
+        keys = list(ta) + [k for k in tb if k not in ta]
+        pq = [(ta.get(k, Fraction(0)), tb.get(k, Fraction(0))) for k in keys]
+        only_q = [qq for p, qq in pq if p == 0 and qq > 0]       # mass of Q outside the support of P
+        only_p = [p for p, qq in pq if p > 0 and qq == 0]        # mass of P outside the support of Q
+        kw = {} if rvs is None else {'rvs': rvs}
+        where = '' if rvs is None else ' (rvs=%s)' % (rvs,)
+        out = {}
+        for name, f, f0, slope in self.fdiv_menu(alpha):
+            # KNOWN DEVIATION, not judged (reported, dit not changed): f_divergence sums q f(p/q) over the outcomes
+            # of the FIRST distribution only and lets nansum drop 0 * f(inf).  So (i) the terms q(x) f(0) for
+            # outcomes in the second support but outside the first are missing unless f(0) = 0, and (ii) the terms
+            # p(x) lim f(t)/t for outcomes in the first support but outside the second are missing unless that
+            # limit is 0.  E.g. P = {a: 1/4, b: 3/4}, Q = {a: 1/4, b: 1/4, c: 1/2}: f(t) = |t-1|/2 gives 0.25
+            # (total variation is 0.5); f(t) = t log2 t on (Q, P) gives -0.396 (D(Q||P) = +inf); disjoint supports
+            # give 0 for every f.  Exactly that input class is skipped here; everything else is judged.
+            if (only_q and f0 != 0) or (only_p and slope != 0):
+                r.features.append('fdiv-unjudged=%s' % name)
+                continue
+            with np.errstate(all='ignore'):
+                val = float(D.f_divergence(da, db, f, **kw))
+                ref = 0.0
+                for p, qq in pq:
+                    if p > 0 and qq > 0:
+                        ref += float(qq) * float(f(float(p / qq)))
+            # (the remaining terms are q f(0) with f(0) = 0 and p * slope with slope = 0)
+            out[name] = (val, ref)
+            r.features.append('fdiv-judged=%s' % name)
+            if not self.agree(val, ref):
+                r.oracle_fail = 'f_divergence%s with f = %s is %r but sum_x q f(p/q) over the labels is %r' % (where, name, val, ref)
+            elif val < -1e-12:
+                r.oracle_fail = 'f_divergence%s with the convex f = %s (f(1) = 0) is negative: %r' % (where, name, val)
+            elif name == 'chi2':
+                exact = sum((p - qq) ** 2 / qq for p, qq in pq if qq > 0)
+                if not self.agree(val, float(exact)):
+                    r.oracle_fail = 'f_divergence%s with f = (t-1)^2 is %r but sum (p-q)^2/q = %s' % (where, val, exact)
+            elif name == 'tv':
+                exact = sum(abs(p - qq) for p, qq in pq) / 2
+                if not self.agree(val, float(exact)):
+                    r.oracle_fail = 'f_divergence%s with f = |t-1|/2 is %r but the variational distance is %s' % (where, val, exact)
+            if r.oracle_fail:
+                r.detail = dict(r.detail or {}, fdiv={k: list(v) for k, v in out.items()})
+                return False
+            if drv is not None and name in ('kl', 'tv') and not r.mismatch:
+                mo = self.model_div(drv, name, [(p, qq) for p, qq in pq if p > 0 or name == 'tv'])
+                if not self.agree(val, mo):
+                    r.mismatch = 'f_divergence with f = %s: impl %r model %r' % (name, val, mo)
+            # D_f(P||P) = 0
+            with np.errstate(all='ignore'):
+                vself = float(D.f_divergence(da, da, f, **kw))
+            if abs(vself) > 1e-12:
+                r.oracle_fail = 'f_divergence%s of a distribution from itself with f = %s is %r' % (where, name, vself)
+                return False
+        r.detail = dict(r.detail or {}, fdiv={k: list(v) for k, v in out.items()})
+        return True
 
     def run_pair(self, case, drv, r):
         dit = import_dit()
@@ -296,6 +441,9 @@ class C06(object):
         r.detail = {'got': got, 'ref': ref, 'model': mo}
         if r.oracle_fail:
             return
+        # Csiszar f-divergences for a menu of f (the general entry point behind the named ones)
+        if not self.fdiv_judge(D, da, db, ta, tb, alpha, r, drv=drv):
+            return
         # axioms
         kl_self = float(D.kullback_leibler_divergence(da, da))
         if abs(kl_self) > 1e-12:
@@ -339,6 +487,52 @@ class C06(object):
             if not r.mismatch and not math.isinf(ci) and not math.isinf(mref) and ci < mref - 1e-4 * max(1.0, mref):
                 r.mismatch = 'Chernoff information %r is below -objective(alpha) = %r of the model at a grid point' % (ci, mref)
 
+    def emd_explicit(self, emd, da, db, atoms_a, atoms_b, r, descr):
+        """earth_movers_distance(da, db, distances) for cost matrices handed over explicitly (rows: the stored outcomes
+        of da, columns: those of db).  atoms_x: (label, position on a line, exact probability) per stored outcome.
+        Costs with a closed-form optimum: c * [label_i != label_j] (optimum c * TV), |x_i - y_j| and (x_i - y_j)^2
+        (a convex function of the distance on a line: the monotone coupling is optimal).  False after an oracle failure."""
+        def monotone(h):
+            A = sorted((x, p) for _, x, p in atoms_a if p > 0)
+            B = sorted((x, p) for _, x, p in atoms_b if p > 0)
+            i = j = 0
+            ra, rb = A[0][1], B[0][1]
+            tot = Fraction(0)
+            while True:
+                m = min(ra, rb)
+                tot += m * h(abs(A[i][0] - B[j][0]))
+                ra -= m
+                rb -= m
+                if ra == 0:
+                    i += 1
+                    if i == len(A):
+                        break
+                    ra = A[i][1]
+                if rb == 0:
+                    j += 1
+                    if j == len(B):
+                        break
+                    rb = B[j][1]
+            return tot
+        keys = [k for k, _, _ in atoms_a] + [k for k, _, _ in atoms_b]
+        pa_ = {k: p for k, _, p in atoms_a}
+        pb_ = {k: p for k, _, p in atoms_b}
+        tv = sum(abs(pa_.get(k, 0) - pb_.get(k, 0)) for k in set(keys)) / 2
+        costs = [('3 [i != j]', lambda ka, xa, kb, xb: 0 if ka == kb else 3, 3 * tv, 'lists'),
+                 ('|x - y|', lambda ka, xa, kb, xb: abs(xa - xb), monotone(lambda d: d), 'array'),
+                 ('(x - y)^2', lambda ka, xa, kb, xb: (xa - xb) ** 2, monotone(lambda d: d * d), 'lists')]
+        for cname, cf, ref, form in costs:
+            M = [[cf(ka, xa, kb, xb) for kb, xb, _ in atoms_b] for ka, xa, _ in atoms_a]
+            val = float(emd(da, db, np.array(M, dtype=float) if form == 'array' else M))
+            r.features.append('emd-explicit-cost')
+            if not self.agree(val, float(ref), 1e-7):
+                r.oracle_fail = ('earth mover\'s distance %s with the explicit cost matrix %s between the stored outcomes (positions %s '
+                                 'and %s) is %r; the optimal transport cost is %s' % (descr, cname, [x for _, x, _ in atoms_a],
+                                                                                     [x for _, x, _ in atoms_b], val, ref))
+                r.detail = dict(r.detail or {}, emd_explicit={'cost': cname, 'matrix': M, 'got': val, 'expected': str(ref)})
+                return False
+        return True
+
     def run_emd(self, case, drv, r):
         from dit.divergences import earth_movers_distance, variational_distance
         if case.get('numeric'):
@@ -360,6 +554,11 @@ class C06(object):
             if not self.agree(emd, float(ref), 1e-7):
                 r.oracle_fail = 'earth mover\'s distance between %s%s and %s%s is %r; the optimal transport cost is %s' % (
                     xa, case['pa'], xb, case['pb'], emd, ref)
+                return
+            # the same pair with the cost matrix handed over explicitly
+            ta_, tb_ = dict(zip(xa, pa)), dict(zip(xb, pb))
+            self.emd_explicit(earth_movers_distance, da, db, [(x, x, ta_.get(x, Fraction(0))) for x in da.outcomes],
+                              [(x, x, tb_.get(x, Fraction(0))) for x in db.outcomes], r, 'between %s%s and %s%s' % (xa, case['pa'], xb, case['pb']))
             return
         klass, (da, db), (ta, tb) = self.tables(case)
         r.nontrivial = len(ta) >= 2 and len(tb) >= 2
@@ -371,6 +570,17 @@ class C06(object):
             r.oracle_fail = 'categorical earth mover\'s distance %r, but the mass that must move is %r' % (emd, tv)
         if not self.agree(emd, mo, 1e-7):
             r.mismatch = 'emd: impl %r model %r' % (emd, mo)
+        if r.oracle_fail:
+            return
+        # explicit cost matrices between the stored outcomes of the two objects (zero-probability members of a dense
+        # distribution included); each label sits at the point sum_i rank_i 6^i of a line
+        def atoms(d, t):
+            out = []
+            for o in d.outcomes:
+                raw = tuple(gen.from_py(o, klass))
+                out.append((raw, sum(x * 6 ** i for i, x in enumerate(raw)), t.get(raw, Fraction(0))))
+            return out
+        self.emd_explicit(earth_movers_distance, da, db, atoms(da, ta), atoms(db, tb), r, 'of case a, b')
 
     def run_jsd(self, case, drv, r):
         from dit.divergences import jensen_shannon_divergence
@@ -593,6 +803,19 @@ class C06(object):
                             break
                     if r.oracle_fail:
                         break
+        # the f-divergence restricted to rvs is the f-divergence of the marginals on rvs: against the definition on the
+        # exact marginal tables, and against the call on the marginal distributions themselves
+        if not r.oracle_fail and not crvs:
+            if not self.fdiv_judge(D, da, db, marg(ta, both), marg(tb, both), case['alpha'], r, rvs=rvs):
+                return
+            if ma_ is not None:
+                for name, f, _f0, _slope in self.fdiv_menu(case['alpha']):
+                    with np.errstate(all='ignore'):
+                        v1 = float(D.f_divergence(da, db, f, rvs=rvs))
+                        v2 = float(D.f_divergence(ma_, mb_, f))
+                    if not (self.agree(v1, v2, 1e-9) or (math.isnan(v1) and math.isnan(v2))):
+                        r.oracle_fail = 'f_divergence(f=%s, rvs=%s) = %r, but %r on the marginals themselves' % (name, rvs, v1, v2)
+                        return
         # model: marginal alignment through the driver
         if not crvs:
             ma, mb = marg(ta, both), marg(tb, both)
@@ -680,6 +903,108 @@ class C06(object):
             if abs(rho_p - ref) > 1e-7:
                 r.oracle_fail = 'pmf-form maximum correlation of the joint matrix %s is %r, second singular value of P/sqrt(pX pY) is %r' % (
                     case['P'], rho_p, ref)
+
+    def run_condmaxcorr(self, case, drv, r):
+        """maximum_correlation(d, [X, Y], crvs=Z) = max over the values z of positive probability of the maximum
+        correlation of p(x, y | z) (the conditional maximal correlation: sup over f(X,Z), g(Y,Z) as in the docstring)."""
+        dit = import_dit()
+        from dit.divergences import maximum_correlation
+        from dit.divergences.pmf import conditional_maximum_correlation as cond_pmf
+        r.site = 'dit.divergences.maxcorr.conditional'
+        klass, roles = case['klass'], case['roles']
+        P = [[[Fraction(v) for v in row] for row in plane] for plane in case['P']]
+        nx, ny, nz = len(P), len(P[0]), len(P[0][0])
+        coord = {'x': lambda x, y, z: x // 2 if 'x2' in roles else x, 'x2': lambda x, y, z: x % 2, 'y': lambda x, y, z: y,
+                 'z': lambda x, y, z: z // 2 if 'z2' in roles else z, 'z2': lambda x, y, z: z % 2}
+        outs, pmf = [], []
+        for x in range(nx):
+            for y in range(ny):
+                for z in range(nz):
+                    if P[x][y][z] > 0 or case['dense']:
+                        outs.append(gen.to_py([coord[ro](x, y, z) for ro in roles], klass))
+                        pmf.append(float(P[x][y][z]))
+        kw = {'sample_space': list(outs)} if case['explicit'] else {}
+        d = dit.Distribution(outs, pmf, trim=False, **kw)
+        gx = [roles.index(ro) for ro in ('x', 'x2') if ro in roles]
+        gz = [roles.index(ro) for ro in ('z', 'z2') if ro in roles]
+        if case['reverse_groups']:
+            gx, gz = gx[::-1], gz[::-1]
+        gy = [roles.index('y')]
+        pz = [sum(P[x][y][z] for x in range(nx) for y in range(ny)) for z in range(nz)]
+        live = [z for z in range(nz) if pz[z] > 0]
+        r.features += ['style=%s' % case['style'], 'roles=%d' % len(roles), 'z-values=%d' % len(live),
+                       'empty-z=%s' % (len(live) < nz)]
+        r.nontrivial = nx >= 2 and ny >= 2 and len(live) >= 2
+        with np.errstate(all='ignore'):
+            rho = float(maximum_correlation(d, [gx, gy], gz))
+        slices = {z: [[P[x][y][z] / pz[z] for y in range(ny)] for x in range(nx)] for z in live}
+        per_z = {z: self.svd_ref(slices[z]) for z in live}
+        ref = max(per_z.values())
+        pxz = {z: [sum(slices[z][x]) for x in range(nx)] for z in live}
+        pyz = {z: [sum(slices[z][x][y] for x in range(nx)) for y in range(ny)] for z in live}
+        cindep = all(slices[z][x][y] == pxz[z][x] * pyz[z][y] for z in live for x in range(nx) for y in range(ny))
+        descr = 'conditional maximum correlation of %s (rvs=%s, crvs=%s)' % (case['P'], [gx, gy], gz)
+        r.detail = {'rho': rho, 'per z': {str(z): v for z, v in per_z.items()}, 'conditionally independent': cindep}
+        if not (-1e-9 <= rho <= 1 + 1e-9):
+            r.oracle_fail = '%s = %r outside [0,1]' % (descr, rho)
+        elif cindep != (abs(rho) <= 1e-7):
+            r.oracle_fail = '%s = %r, X and Y independent given Z = %s' % (descr, rho, cindep)
+        elif abs(rho - ref) > 1e-7:
+            r.oracle_fail = '%s = %r, but the largest second singular value of p(x,y|z)/sqrt(p(x|z) p(y|z)) over z is %r' % (descr, rho, ref)
+        if r.oracle_fail:
+            return
+        with np.errstate(all='ignore'):
+            rho_sw = float(maximum_correlation(d, [gy, gx], gz))
+            rho_p = float(cond_pmf(np.array([[[float(v) for v in row] for row in plane] for plane in P])))
+        if abs(rho_sw - rho) > 1e-8:
+            r.oracle_fail = '%s = %r but %r with the two groups swapped' % (descr, rho, rho_sw)
+            return
+        if abs(rho_p - ref) > 1e-7:
+            r.oracle_fail = 'pmf-form conditional maximum correlation of the array %s is %r, the definition gives %r' % (case['P'], rho_p, ref)
+            return
+        pxy = [[sum(P[x][y]) for y in range(ny)] for x in range(nx)]
+        if all(P[x][y][z] == pxy[x][y] * pz[z] for x in range(nx) for y in range(ny) for z in range(nz)):
+            # Z independent of (X, Y): conditioning changes nothing
+            r.features.append('z-independent-of-xy')
+            with np.errstate(all='ignore'):
+                rho_u = float(maximum_correlation(d, [gx, gy]))
+            if abs(rho_u - rho) > 1e-8:
+                r.oracle_fail = '%s = %r although Z is independent of (X, Y) and the unconditional value is %r' % (descr, rho, rho_u)
+                return
+        # model: per value z the exact characteristic polynomial of the companion matrix of p(x,y|z) (Core/Diverge.lean
+        # `maxcorrCompanion`, `charPoly`); rho^2 must be a root of one of the deflated polynomials and none may have a
+        # larger root below 1
+        lam = rho * rho
+        ev = lambda cs, x_: sum(float(c) * x_ ** (len(cs) - 1 - i) for i, c in enumerate(cs))
+        is_root, any_big = False, False
+        for z in live:
+            rows = [x for x in range(nx) if pxz[z][x] > 0]
+            cols = [y for y in range(ny) if pyz[z][y] > 0]
+            if len(rows) < 2 or len(cols) < 2:
+                continue
+            any_big = True
+            _A, coeffs = drv.call('maxcorr', [[[q(slices[z][x][y]) for y in cols] for x in rows]])
+            poly = [Fraction(1)] + [unq(c) for c in coeffs]
+            g, acc = [], Fraction(0)
+            for c in poly[:-1]:
+                acc = acc + c
+                g.append(acc)
+            if acc + poly[-1] != 0:
+                r.mismatch = 'model: 1 is not an eigenvalue of the companion matrix of the slice z = %d' % z
+                return
+            scale = sum(abs(float(c)) for c in g) or 1.0
+            if len(g) > 1:
+                if abs(ev(g, lam)) <= 1e-7 * scale:
+                    is_root = True
+                xs = [lam + 1e-5 + i * (1.2 - lam) / 400.0 for i in range(1, 401)]
+                signs = set(ev(g, x_) > 0 for x_ in xs if abs(ev(g, x_)) > 1e-9 * scale)
+                if len(signs) > 1:
+                    r.mismatch = '%s = %r: the exact characteristic polynomial of the slice z = %d has a larger root below 1' % (descr, rho, z)
+                    return
+        if any_big and not is_root:
+            r.mismatch = '%s = %r: rho^2 is not a root of the exact deflated characteristic polynomial of any slice' % (descr, rho)
+        elif not any_big and abs(rho) > 1e-9:
+            r.mismatch = '%s = %r but in every slice one variable has a single symbol' % (descr, rho)
 
     @staticmethod
     def svd_ref(P):
